@@ -49,6 +49,15 @@ Proof.
       destruct e; intro H; injection H as <- <-; (eapply frame_trans; [exact T0|]); fr.
 Qed.
 
+Lemma op_recv_cancelled_frame f c w r w' : op_recv_cancelled f c w = (r, w') -> frame w w'.
+Proof.
+  unfold op_recv_cancelled. destruct (require_accepted w) eqn:Er.
+  - intro H. injection H as <- <-. apply frame_refl.
+  - destruct (would_park c w).
+    + intro H. injection H as <- <-. apply frame_refl.
+    + apply op_recv_frame.
+Qed.
+
 Lemma op_recv_trace f k c w r w' : op_recv f k c w = (r, w') -> trace w' = trace w.
 Proof. intro H. apply (op_recv_frame _ _ _ _ _ _ H). Qed.
 
@@ -142,4 +151,5 @@ Proof.
   - eapply stop_frame; [exact HS | eapply op_recv_frame; eauto].
   - injection Hs as <- <-. exact HS.
   - injection Hs as <- <-. eapply stop_frame; [exact HS | apply advance_frame].
+  - eapply stop_frame; [exact HS | eapply op_recv_cancelled_frame; eauto].
 Qed.
